@@ -204,6 +204,53 @@ func judgeHop(c *chainRun, ans string, count func(string)) (next []byte, msg str
 	return raw, "", false
 }
 
+// failsSerial re-runs W and the chain for one candidate value, one driver round trip per step, and tells whether
+// the oracle still fails with a message of the same kind (used by the shrinker only).
+func failsSerial(b *batch.Built, c *chainRun, v *values.Value, kind string) bool {
+	wa, err := b.RunLines([]string{fmt.Sprintf("W %s:%d %s", c.p.units[roleNewPlain].Key, c.sidx, v.String())})
+	if err != nil || !strings.HasPrefix(wa[0], "ok ") {
+		return false
+	}
+	raw, err := hex.DecodeString(strings.TrimPrefix(wa[0][3:], "-"))
+	if err != nil {
+		return false
+	}
+	norm, nerr := refcodec.Decode(c.p.newS, c.sidx, raw)
+	if nerr != nil {
+		return false
+	}
+	if n2, err := refcodec.Normal(c.p.newS, c.sidx, norm); err != nil || !refcodec.Equal(n2, norm) {
+		return false
+	}
+	d := &chainRun{p: c.p, sidx: c.sidx, v: v, norm: norm, chain: c.chain, cur: raw, uum: unknownUnionMember(c.p.newS, c.p.oldS, c.sidx, norm)}
+	for d.step < len(d.chain) {
+		ha, err := b.RunLines([]string{fmt.Sprintf("H %s:%d %s", d.p.units[d.chain[d.step]].Key, d.sidx, hexOrDash(d.cur))})
+		if err != nil {
+			return false
+		}
+		next, msg, known := judgeHop(d, ha[0], func(string) {})
+		if msg != "" {
+			return !known && msgKind(msg) == kind
+		}
+		if next == nil {
+			return false
+		}
+		d.cur = next
+		d.step++
+	}
+	return false
+}
+
+// msgKind is the failure message up to the first value-dependent part
+func msgKind(msg string) string {
+	for _, cut := range []string{" to R ", ": ", " answered "} {
+		if i := strings.Index(msg, cut); i > 0 {
+			return msg[:i]
+		}
+	}
+	return msg
+}
+
 func canonAnswer(ans string) string {
 	toks := strings.Fields(ans)
 	if len(toks) >= 2 && toks[0] == "ok" {
@@ -406,7 +453,7 @@ func runPairs(repo, work string, r *vl.Rng, npairs, nvalues int, out *vl.Out) (*
 		return b, err
 	}
 	record(rl, ra)
-	fails := 0
+	fails, shrinks := 0, 0
 	report := func(c *chainRun, what, op, ans string, known bool) {
 		fails++
 		key := fmt.Sprintf("%s|%s|%s", what, c.id(), c.v.String())
@@ -473,6 +520,15 @@ func runPairs(repo, work string, r *vl.Rng, npairs, nvalues int, out *vl.Out) (*
 			out.Count(fmt.Sprintf("b.op.H.%s.step%d", roleName[c.chain[c.step]], c.step))
 			next, msg, known := judgeHop(c, ha[i], out.Count)
 			if msg != "" {
+				if !known && shrinks < 3 {
+					// shrink the value (serial re-runs of W + the chain) so that the replay is small
+					shrinks++
+					kind := msgKind(msg)
+					small := valgen.Shrink(c.p.newS, c.sidx, c.v, func(v *values.Value) bool { return failsSerial(b, c, v, kind) }, 60)
+					if small != nil && failsSerial(b, c, small, kind) {
+						c.v = small
+					}
+				}
 				report(c, msg, hl[i], ha[i], known)
 			}
 			if next == nil {
